@@ -168,6 +168,19 @@ Theorem C04_reach_ckif_is_generated : forall (s : st) (fuel : nat) (t : tid),
 Proof. exact reach_ckif_is_generated. Qed.
 Print Assumptions C04_reach_ckif_is_generated.
 
+(* F46: the re-check after each yield of checkpoint_if_cancelled restarts from the task's own scope
+   (gen_ckif_restarts_from_task_scope is emitted by the translator only for the source shape
+   `await sleep(0); cancel_scope = <the initial expression>`): in every reachable state the resumption of a spinning
+   task without an incoming exception is decided by the generated walk over the task's current chain. *)
+Theorem C04_reach_ckif_respin_is_generated : forall (s : st) (t : tid) (fo : option fid),
+  reach_ok s -> k_ctl (tasks s t) = CYield YCkIf -> snd (incoming s t fo) = None ->
+  snd (resume s t fo) =
+    if gen_ckif_restarts_from_task_scope
+    then (if gen_ckif_spins (chain_of (nscope s) s (k_cur (tasks s t))) then RBlocked else RRet 0)
+    else RBlocked.
+Proof. exact reach_ckif_respin_is_generated. Qed.
+Print Assumptions C04_reach_ckif_respin_is_generated.
+
 Theorem C04_machine_restart_is_generated : forall (fuel : nat) (s : st) (x : option sid),
   restart_from fuel s x =
   match (match gen_restart_target (chain_of fuel s x) with
